@@ -47,6 +47,8 @@ REQUIRE = {
     "oracle_b_esc_prefixed_table_judged": 1404,
     "oracle_b_esc_prefixed_meta_named_judged": 300,
     "oracle_b_esc_nested_judged": 230,
+    "wide_pairs_judged:pair": 600,
+    "wide_pairs_judged:not-pair": 600,
     "esc_depth:2": 75,
     "esc_depth:3": 75,
     "esc_depth:4": 75,
@@ -115,6 +117,9 @@ ASSUMES = [
     "motion-without-button, no wheel release; a CPR that is textually a table entry (ESC[1;2R = 'shift f3') is ambiguous "
     "and not judged; ESC followed by a mouse report / a 'meta ...' key / a CPR has no documented name and is judged for "
     "totality and fragmentation only",
+    "wide mode: which two bytes form one double-byte character is the documented layout of the supported encodings (lead "
+    "0x81..0xFE, trail 0x40..0x7E / 0x80..0xFE); a second byte < 0x40 or DEL never pairs; lead 0x80 / 0xFF or trail 0xFF "
+    "with an 8-bit partner, and 0xFF + 0x40..0x7E (urwid pairs these) are outside the layout and not judged",
     "ESC-prefix rule for any nesting depth: the first event of what follows ESC takes 'meta ', unless it is a report, 'esc' or "
     "already carries 'meta ' - then ESC is its own 'esc' event; the rest of the inner run is reported unchanged (ESC^k + token, k<=4)",
     "'meta' rule from the documentation (ALT+J -> 'meta j'): ESC + key -> 'meta <key>', also for ESC + named sequence; a key "
@@ -1454,6 +1459,20 @@ def enumerations(ctx, R: Runner):
                 ctx.count("oracle_b_esc_nested_judged", judged)
                 ctx.count(f"esc_depth:{depth}", judged)
                 ctx.count("enumeration_items:E0e")
+    # E0f core, never skipped: wide mode, (byte 0x80..0xFF) x (second byte) followed by a marker key, whole and cut
+    # between / after the two bytes x fire / no fire, judged against the documented double-byte layout.
+    # quick: every first byte x the boundary second bytes; thorough: all 128 x 256 pairs
+    seconds = [0x00, 0x08, 0x0D, 0x20, 0x3F, 0x40, 0x41, 0x5B, 0x7E, 0x7F, 0x80, 0xA0, 0xA1, 0xFE, 0xFF] if q else range(256)
+    for b1 in range(0x80, 0x100):
+        for b2 in seconds:
+            if not mine():
+                continue
+            cls = M.wide_pair_class(b1, b2)
+            before = ctx.counters["oracle_b_naming_streams"] + ctx.counters["oracle_d_garbage_streams"]
+            R.stream("wide", [["wpair", b1, b2], ["byte", 0x71]], sched="exhaustive", pairs=False)
+            judged = ctx.counters["oracle_b_naming_streams"] + ctx.counters["oracle_d_garbage_streams"] - before
+            ctx.count(f"wide_pairs_judged:{cls}" if judged else f"wide_pairs_unjudged:{cls}")
+            ctx.count("enumeration_items:E0f")
     # E1 every named sequence, alone (all cuts and cut pairs x fire patterns) in every mode, and embedded
     for si, seq in enumerate(model.named):
         for mi, mode in enumerate(MODES):
